@@ -411,7 +411,7 @@ func c04RunProxy(in *c04In) Result {
 			hadHop = true
 		}
 	}
-	trig := c04Triggers(in, req.Header) // before ServeHTTP: the proxy may mutate req.Header (aliasing)
+	trig := c04Triggers(in, req.Header) // computed before ServeHTTP, on the header map as parsed
 	fixedCl := c04RepairedClasses(in, req.Header)
 	text := "proxy / " + strings.Join(in.Targets, " ") + " {\n" + c04BlockText(in.Dirs)
 	if len(in.Targets) > 1 {
@@ -510,20 +510,11 @@ func c04RunProxy(in *c04In) Result {
 
 var c04HopNames = []string{"Connection", "Keep-Alive", "Proxy-Authenticate", "Proxy-Authorization", "Proxy-Connection", "Te", "Trailer", "Transfer-Encoding", "Upgrade", "Alt-Svc", "Alternate-Protocol"}
 
-// c04Triggers lists the input conditions under which the unchanged tree is known to deviate from
-// the property (each is one known finding); reqHdr is the header map net/http parsed.
+// c04Triggers lists the input conditions under which the tree is known to deviate from the
+// property (each is one OPEN known finding); reqHdr is the header map net/http parsed. All proxy-case
+// findings (F-C04-1..5) are repaired: none is left, see c04RepairedClasses.
 func c04Triggers(in *c04In, reqHdr http.Header) []string {
-	var t []string
-	hadHop := false
-	for _, h := range c04HopNames {
-		if _, ok := reqHdr[h]; ok {
-			hadHop = true
-		}
-	}
-	if c04AliasSensitive(in, hadHop) {
-		t = append(t, "request:placeholder-reads-mutated-headers")
-	}
-	return t
+	return nil
 }
 
 // c04RepairedClasses names the input classes of REPAIRED findings (status "fixed" in
@@ -545,6 +536,15 @@ func c04RepairedClasses(in *c04In, reqHdr http.Header) []string {
 	}
 	if rc := c04Lines(in.RHdr)["Connection"]; len(rc) >= 2 && c04LaterConnNames(rc, c04Lines(in.RHdr)) {
 		t = append(t, "response:second-connection-line") // F-C04-3
+	}
+	hadHop := false
+	for _, h := range c04HopNames {
+		if _, ok := reqHdr[h]; ok {
+			hadHop = true
+		}
+	}
+	if c04AliasSensitive(in, hadHop) {
+		t = append(t, "request:placeholder-reads-mutated-headers") // F-C04-5
 	}
 	return t
 }
@@ -585,7 +585,8 @@ func c04NonIdempotent(in *c04In) bool {
 
 // header_upstream/header_downstream values that read a request header the proxy itself rewrites
 // (X-Forwarded-For, Authorization from the upstream URL, or a header targeted by another
-// header_upstream rule) while outreq.Header aliases r.Header (no hop-by-hop header was removed)
+// header_upstream rule) in a request without hop-by-hop header (before the repair of F-C04-5
+// outreq.Header then shared the map of r.Header and the placeholder read the rewritten value)
 func c04AliasSensitive(in *c04In, hadHop bool) bool {
 	if hadHop {
 		return false
